@@ -1,6 +1,8 @@
 """C07 - cancellation is never swallowed by scopes; the cancellation check reports it."""
 from harness.legs import cfg_text, leg_m, leg_mutant, leg_r
-from props.scopetasks_common import ScopeTasksDriver, replay  # noqa: F401
+from props.scopelife_common import ScopeLifeDriver
+from props.scopetasks_common import ScopeTasksDriver
+from props.scopetasks_common import replay as _replay_tasks
 
 SPEC = "ScopeTasks"
 MANIFEST = dict(
@@ -9,14 +11,22 @@ MANIFEST = dict(
          "next suspension). TLC checks NotSwallowed (a task that was asked to cancel ends cancelled), CancelCascades "
          "(so does everything spawned into the scopes it had open) and CheckAgrees (the check raises after a request "
          "and not otherwise; after an internal TaskGroup cancel absorbed by the stdlib either answer is accepted). "
-         "Cancellation at the suspension points inside __aenter__/__aexit__ with disposables is covered by "
-         "ScopeLife.tla (CancelNotLost, checked by C02/C08). Every edge is replayed into real tasks; the victim's final "
+         "Cancellation at the suspension points inside __aenter__/__aexit__ (entering disposables, rollback, "
+         "exiting disposables, waiting for members) is ScopeLife.tla's CancelNotLost / CancelAbortsMembers, model-"
+         "checked and replayed by this check as well. Every edge is replayed into real tasks; the victim's final "
          "Task.cancelled(), the members' states and the answer of ctx.check_cancellation() are compared.",
     technique="TLA+ spec + TLC exhaustive model checking of cancellation placements; edge-complete graph replay into the "
               "implementation through a gated interpreter",
     design="5/C07")
 INVS = ["TypeOK", "NoOrphans", "NoIdleWait", "NotSwallowed"]
 PROPS = ["CancelCascades", "CheckAgrees"]
+
+
+def replay(rep, record):
+    if record.get("spec") == "ScopeLife":
+        from props.scopelife_common import replay as r
+        return r(rep, record)
+    return _replay_tasks(rep, record)
 
 
 def run(rep, work, tier, seed):
@@ -36,6 +46,12 @@ def run(rep, work, tier, seed):
         leg_mutant(rep, work, SPEC, "mutant_check_never",
                    cfg_text(dict(small, Bug="check_never"), spec="Spec", invariants=INVS, properties=PROPS), ["CheckAgrees"])
     leg_r(rep, work, SPEC, f"conf_{tier}", cfg_text(conf, invariants=INVS), ScopeTasksDriver)
+    # cancellation at the suspension points INSIDE __aenter__ / __aexit__ (disposables, rollback, exit wait)
+    life = dict(ND=2, NC=1, Behaviours=["ok", "fail", "susp"], Bug="none") if tier == "quick" else \
+        dict(ND=2, NC=2, Behaviours=["ok", "fail", "susp"], Bug="none")
+    life_invs = ["TypeOK", "CancelNotLost", "CancelAbortsMembers", "NoWaitAfterFailure", "Restored"]
+    leg_m(rep, work, "ScopeLife", f"life_mc_{tier}", cfg_text(life, invariants=life_invs), expect_actions=["Cancel"])
+    leg_r(rep, work, "ScopeLife", f"life_conf_{tier}", cfg_text(life, invariants=life_invs), ScopeLifeDriver)
     rep.assumptions += [
         "user code does not catch the cancellation (the property's own proviso); tasks obey cancellation at once",
         "an external task.cancel() on a task parked at a gate is delivered at once, so ctx.check_cancellation() can only "
